@@ -459,3 +459,200 @@ Proof.
   intros tr st Hh Hp n d. rewrite (pending_since tr Hp n d).
   apply since_nonneg. eapply hist_grow_nonneg; exact Hh.
 Qed.
+
+(* ---- the truncated coins of TruncateDecimal are a valid sdk.Coins value (NewDecCoinsFromCoins cannot panic) ---- *)
+Definition allpos (c : coins) : Prop := Forall (fun x => 0 < snd x) c.
+
+Lemma icoins_add1_pos : forall c x r, allpos c -> 0 < snd x -> icoins_add1 c x = Some r -> allpos r.
+Proof.
+  induction c as [|y c IH]; intros x r Hc Hx H; cbn [icoins_add1] in H.
+  - injection H as <-. constructor; [exact Hx|constructor].
+  - inversion Hc as [|? ? Hy Hc']; subst. destruct (fst x ?= fst y).
+    + destruct (int_fits (snd x + snd y)); [|discriminate]. injection H as <-.
+      unfold push_nz. destruct (is_zero _); [exact Hc'|]. constructor; [cbn; lia|exact Hc'].
+    + injection H as <-. constructor; [exact Hx|exact Hc].
+    + destruct (icoins_add1 c x) as [r0|] eqn:E0; [|discriminate]. injection H as <-.
+      constructor; [exact Hy|]. apply (IH x r0 Hc' Hx E0).
+Qed.
+
+Lemma truncate_from_pos : forall c tc ch tc' ch', allpos tc ->
+  truncate_decimal_from tc ch c = Some (tc', ch') -> allpos tc'.
+Proof.
+  induction c as [|x c IH]; intros tc ch tc' ch' Hp H; cbn [truncate_decimal_from] in H.
+  - injection H as <- _. exact Hp.
+  - destruct (trunc_coin x) as [[t g]|] eqn:Et; [|discriminate].
+    destruct (trunc_coin_spec x t g Et) as [-> [-> Hx]].
+    unfold is_zero at 1 in H. cbn [snd] in H.
+    destruct (Z.quot (snd x) P18 =? 0) eqn:Eq.
+    + destruct (if is_zero _ then Some ch else _) as [ch1|]; [|discriminate]. eapply IH; eauto.
+    + destruct (icoins_add1 tc (fst x, Z.quot (snd x) P18)) as [tc1|] eqn:E1; [|discriminate].
+      destruct (if is_zero _ then Some ch else _) as [ch1|]; [|discriminate].
+      eapply IH; [|exact H]. eapply icoins_add1_pos; [exact Hp| |exact E1]. cbn [snd].
+      apply Z.eqb_neq in Eq. pose proof (Z.quot_pos (snd x) P18 Hx P18_pos). lia.
+Qed.
+
+Lemma icoins_valid_iff : forall c, sorted c -> allpos c -> icoins_valid c = true.
+Proof.
+  induction c as [|x c IH]; intros Hs Hp; [reflexivity|].
+  inversion Hp; subst. cbn [icoins_valid]. rewrite (IH (sorted_tail _ _ Hs)) by assumption.
+  assert (E1 : (0 <? snd x) = true) by (apply Z.ltb_lt; assumption). rewrite E1.
+  destruct c as [|y c]; [reflexivity|]. destruct Hs as [Hs _].
+  assert (E2 : (fst x <? fst y) = true) by (apply Z.ltb_lt; exact Hs). rewrite E2. reflexivity.
+Qed.
+
+Lemma truncated_coins_valid : forall total tc du, sorted total -> truncate_decimal total = Some (tc, du) ->
+  exists dc, dec_coins_from_coins tc = Some dc.
+Proof.
+  intros total tc du Hs Ht. destruct (truncate_decimal_spec total tc du Hs Ht) as [S1 _].
+  assert (Hp : allpos tc) by (eapply truncate_from_pos; [constructor|exact Ht]).
+  unfold dec_coins_from_coins. rewrite (icoins_valid_iff tc S1 Hp). eauto.
+Qed.
+
+(* ---- every call: why it can panic ---- *)
+Definition total_of (st : astore) : Z := match a_content st with Some c => c_total c | None => 0 end.
+
+Definition panic_reason (tr : trace) (st : astore) (o : op) : Prop :=
+  match o with
+  | OGrow c => exists d, d_fits (growth tr d + amt d c) = false
+  | ONew n s | ONewIA n s _ => d_fits (total_of st + s) = false
+  | OAdd n s | OAddIA n s _ =>
+      rewards_overflow tr n \/ d_fits (shares tr n + s) = false \/ d_fits (total_of st + s) = false
+  | ORemove n s | ORemoveIA n s _ =>
+      rewards_overflow tr n \/ d_fits (shares tr n - s) = false \/ d_fits (total_of st - s) = false
+  | OUpdate n s | OUpdateIA n s _ =>
+      rewards_overflow tr n \/ d_fits (shares tr n + s) = false \/ d_fits (total_of st + s) = false
+  | OSetIA _ _ => False
+  | OClaim n => rewards_overflow tr n \/ payout_overflow tr n
+  | ODelete n => rewards_overflow tr n \/ payout_overflow tr n \/ d_fits (total_of st - shares tr n) = false
+  | OAddUnclaimed n c => exists d, d_fits (settled tr n d + amt d c) = false
+  end.
+
+Lemma refetch_panic : forall st rv f c, a_content st = Some c ->
+  o_res (refetch_and_set st rv f) = Panic -> f (c_total c) = None.
+Proof.
+  intros st rv f c Hc H. destruct (refetch_cases st rv f c Hc) as [[_ K]|[t [_ [K _]]]]; [exact K|].
+  cbv zeta in K. rewrite K in H. discriminate.
+Qed.
+
+Lemma add_ia_panic : forall tr st rv n s ia c, Inv1 tr st -> Inv2 tr st -> a_content st = Some c ->
+  v_value rv = c_value c ->
+  o_res (add_to_position_ia st rv n s ia) = Panic ->
+  rewards_overflow tr n \/ d_fits (shares tr n + s) = false \/ d_fits (c_total c + s) = false.
+Proof.
+  intros tr st rv n s ia c [c1 [Hc1 [Hps [Htot Hpos]]]] [c2 [Hc2 [Hval Hrec]]] Hc Hv H.
+  rewrite Hc in Hc1, Hc2. injection Hc1 as <-. injection Hc2 as <-.
+  unfold add_to_position_ia, get_position in H.
+  destruct (negb (0 <? s)); [discriminate|].
+  pose proof (Hpos n) as Hpn.
+  destruct (p_get n (a_pos st)) as [pos|] eqn:Hg; [|discriminate]. destruct Hpn as [_ Hsh].
+  assert (Hval' : val_ok tr (v_value rv)) by (rewrite Hv; exact Hval).
+  destruct (get_total_rewards rv pos) as [unc|] eqn:Hr.
+  - destruct (dec_add (r_shares pos) s) as [ns|] eqn:Ea.
+    + right; right. apply refetch_panic with (c := c) in H; [|exact Hc]. apply chk_none in H. exact H.
+    + right; left. apply chk_none in Ea. rewrite <- Hsh. exact Ea.
+  - left. eapply gtr_none_ghost; eauto.
+Qed.
+
+Lemma remove_ia_panic : forall tr st rv n s ia c, Inv1 tr st -> Inv2 tr st -> a_content st = Some c ->
+  v_value rv = c_value c ->
+  o_res (remove_from_position_ia st rv n s ia) = Panic ->
+  rewards_overflow tr n \/ d_fits (shares tr n - s) = false \/ d_fits (c_total c - s) = false.
+Proof.
+  intros tr st rv n s ia c [c1 [Hc1 [Hps [Htot Hpos]]]] [c2 [Hc2 [Hval Hrec]]] Hc Hv H.
+  rewrite Hc in Hc1, Hc2. injection Hc1 as <-. injection Hc2 as <-.
+  unfold remove_from_position_ia, get_position in H.
+  destruct (negb (0 <? s)); [discriminate|].
+  pose proof (Hpos n) as Hpn.
+  destruct (p_get n (a_pos st)) as [pos|] eqn:Hg; [|discriminate]. destruct Hpn as [_ Hsh].
+  destruct (r_shares pos <? s); [discriminate|].
+  assert (Hval' : val_ok tr (v_value rv)) by (rewrite Hv; exact Hval).
+  destruct (get_total_rewards rv pos) as [unc|] eqn:Hr.
+  - destruct (dec_sub (r_shares pos) s) as [ns|] eqn:Ea.
+    + right; right. apply refetch_panic with (c := c) in H; [|exact Hc]. apply chk_none in H. exact H.
+    + right; left. apply chk_none in Ea. rewrite <- Hsh. exact Ea.
+  - left. eapply gtr_none_ghost; eauto.
+Qed.
+
+Lemma panic_has_reason : forall tr st rv o, hist tr st -> dom tr o -> recv_ok st rv o ->
+  o_res (step st rv o) = Panic -> panic_reason tr st o.
+Proof.
+  intros tr st rv o Hh Hdom Hrv Hres.
+  destruct (hist_inv tr st Hh) as [H1 H2].
+  pose proof H1 as [c1 [Hc1 [Hps [Htot1 Hpos]]]].
+  pose proof H2 as [c2 [Hc2 [Hval Hrec]]].
+  destruct Hrv as [c [Hc [Hv Htot]]].
+  rewrite Hc in Hc1, Hc2. injection Hc1 as <-. injection Hc2 as <-.
+  assert (Ht : total_of st = c_total c) by (unfold total_of; rewrite Hc; reflexivity).
+  destruct o; cbn [step lift_unit o_res panic_reason] in *; rewrite ?Ht.
+  - (* OGrow *)
+    unfold add_to_accumulator in Hres.
+    destruct (safe_add (v_value rv) c0) as [v|] eqn:E; [discriminate|].
+    rewrite (Hv eq_refl) in E. destruct Hval as [Hv1 Hv2].
+    destruct (safe_add_none _ _ Hv1 (proj1 Hdom) E) as [d Hd]. exists d. rewrite <- Hv2. exact Hd.
+  - unfold new_position, new_position_ia in Hres.
+    destruct (o_res (refetch_and_set _ rv _)) eqn:E; try discriminate.
+    apply refetch_panic with (c := c) in E; [|exact Hc]. apply chk_none in E. exact E.
+  - unfold new_position_ia in Hres.
+    destruct (o_res (refetch_and_set _ rv _)) eqn:E; try discriminate.
+    apply refetch_panic with (c := c) in E; [|exact Hc]. apply chk_none in E. exact E.
+  - unfold add_to_position in Hres.
+    destruct (o_res (add_to_position_ia st rv n s (v_value rv))) eqn:E; try discriminate.
+    eapply add_ia_panic; eauto.
+  - destruct (o_res (add_to_position_ia st rv n s ia)) eqn:E; try discriminate.
+    eapply add_ia_panic; eauto.
+  - unfold remove_from_position in Hres.
+    destruct (o_res (remove_from_position_ia st rv n s (v_value rv))) eqn:E; try discriminate.
+    eapply remove_ia_panic; eauto.
+  - destruct (o_res (remove_from_position_ia st rv n s ia)) eqn:E; try discriminate.
+    eapply remove_ia_panic; eauto.
+  - unfold update_position, update_position_ia in Hres.
+    destruct (s =? 0); [discriminate|]. destruct (s <? 0).
+    + destruct (o_res (remove_from_position_ia st rv n (- s) (v_value rv))) eqn:E; try discriminate.
+      replace (shares tr n + s) with (shares tr n - - s) by lia. replace (c_total c + s) with (c_total c - - s) by lia.
+      eapply remove_ia_panic; eauto.
+    + destruct (o_res (add_to_position_ia st rv n s (v_value rv))) eqn:E; try discriminate.
+      eapply add_ia_panic; eauto.
+  - unfold update_position_ia in Hres.
+    destruct (s =? 0); [discriminate|]. destruct (s <? 0).
+    + destruct (o_res (remove_from_position_ia st rv n (- s) ia)) eqn:E; try discriminate.
+      replace (shares tr n + s) with (shares tr n - - s) by lia. replace (c_total c + s) with (c_total c - - s) by lia.
+      eapply remove_ia_panic; eauto.
+    + destruct (o_res (add_to_position_ia st rv n s ia)) eqn:E; try discriminate.
+      eapply add_ia_panic; eauto.
+  - destruct (set_ia_cases st rv n ia) as [[_ [H _]]|[pos [_ [H _]]]]; rewrite H in Hres; discriminate.
+  - apply (claim_panic_reason tr st rv n Hh).
+    + exists c. auto.
+    + cbn [step o_res]. destruct (o_res (claim_rewards st rv n)) as [[tc du]| |]; try discriminate. reflexivity.
+  - (* ODelete *)
+    destruct (o_res (delete_position st rv n)) eqn:E; try discriminate. clear Hres.
+    unfold delete_position, get_position in E.
+    pose proof (Hpos n) as Hpn.
+    destruct (p_get n (a_pos st)) as [pos|] eqn:Hg; [|discriminate]. destruct Hpn as [_ Hsh].
+    assert (Hval' : val_ok tr (v_value rv)) by (rewrite (Hv eq_refl); exact Hval).
+    destruct (claim_cases st rv n) as [_ [H|[[K _]|[pos' [total [tc [dust [Hg' [Hr [Htr [H Hst]]]]]]]]]]].
+    + assert (Hp : o_res (step st rv (OClaim n)) = Panic) by (cbn [step o_res]; rewrite H; reflexivity).
+      assert (Hrvc : recv_ok st rv (OClaim n)).
+      { exists c. split; [exact Hc|]. split; [intros _; exact (Hv eq_refl)|intros K; discriminate K]. }
+      destruct (claim_panic_reason tr st rv n Hh Hrvc Hp); auto.
+    + congruence.
+    + rewrite H in E. rewrite Hg in Hg'. injection Hg' as <-.
+      destruct (dec_sub (v_total rv) (r_shares pos)) as [t|] eqn:Ed.
+      * right; left.
+        destruct (gtr_claimable tr n rv pos total Hval' (Hrec n pos Hg) Hsh Hr) as [[Ct _] Hcl].
+        destruct (truncated_coins_valid total tc dust Ct Htr) as [dc Hdc]. rewrite Hdc in E.
+        destruct (safe_add dc dust) as [ret|] eqn:Esa; [discriminate|].
+        destruct (truncate_decimal_spec total tc dust Ct Htr) as [S1 [C2 Hamt]].
+        destruct (dec_coins_from_coins_spec tc dc Hdc) as [S3 Hamt3].
+        destruct (safe_add_none dc dust S3 (proj1 C2) Esa) as [d Hd].
+        destruct (Hamt d) as [A1 [A2 A3]]. rewrite Hamt3, A1, A2 in Hd.
+        replace (Z.quot (amt d total) P18 * P18 + frac18 (amt d total)) with (amt d total) in Hd by (unfold frac18; lia).
+        exists d. right; right. rewrite <- Hcl. exact Hd.
+      * right; right. apply chk_none in Ed. rewrite <- (Htot eq_refl), <- Hsh. exact Ed.
+  - (* OAddUnclaimed *)
+    unfold add_to_unclaimed, get_position in Hres.
+    destruct (p_get n (a_pos st)) as [pos|] eqn:Hg; [|discriminate].
+    destruct (any_negative c0); [discriminate|].
+    destruct (safe_add (r_unclaimed pos) c0) as [u|] eqn:E; [discriminate|].
+    destruct (Hrec n pos Hg) as [_ [R2 [_ R4]]].
+    destruct (safe_add_none _ _ R2 Hdom E) as [d Hd]. exists d. rewrite <- R4. exact Hd.
+Qed.
